@@ -44,7 +44,8 @@ def random_scenario(rng: random.Random) -> dict:
     wiring = [("source", s) for s in range(nsrc)] + [("handler", h["id"]) for h in handlers] + [("signals", 0)]
     rng.shuffle(wiring)
     return {"pairs": pairs, "bars": bars, "handlers": handlers, "wiring": wiring, "order_event_orders": order_event_orders,
-            "usd": rng.choice([30, 100, 400, 100000]), "base": rng.choice([0, 3, 1000]), "suspending": False}
+            "usd": rng.choice([30, 100, 400, 100000]), "base": rng.choice([0, 3, 1000]), "suspending": False,
+            "reindex_every": rng.choice([0, 2, 3])}
 
 
 async def run_async(S: dict, maxc: int) -> dict:
@@ -62,6 +63,8 @@ async def run_async(S: dict, maxc: int) -> dict:
     ex = bex.Exchange(d, init, liquidity_strategy_factory=liquidity.InfiniteLiquidity)
     for sym in init:
         ex.set_symbol_precision(sym, 2 if sym == "USD" else 0)
+    if S.get("reindex_every") and hasattr(ex._order_mgr._orders, "_reindex_every"):
+        ex._order_mgr._orders._reindex_every = S["reindex_every"]        # harness knob: re-index the open list within short runs
     pair_obj = {p: Pair(p, "USD") for p in S["pairs"]}
     sources = []
     for evs in S["bars"]:
